@@ -12,11 +12,13 @@ def build_xh(wd, prog, sanitize=False):
     flags = ["-O1", "-g", "-w", "-std=gnu11", "-fno-strict-aliasing"]
     if sanitize:
         flags += ["-fsanitize=address,undefined", "-fno-sanitize-recover=undefined", "-fno-omit-frame-pointer", "-ftrivial-auto-var-init=pattern"]
+    tmp = exe + ".tmp%d_%d" % (os.getpid(), id(prog) % 100000)
     cmd = ["clang"] + flags + ["-DXH_" + PROGS[prog], "-I" + os.path.join(REPO, "include"), "-I" + os.path.join(REPO, "examples"), "-I" + HARNESS,
-           os.path.join(HARNESS, "xh.c")] + lib_sources() + ["-o", exe, "-lm"]
+           os.path.join(HARNESS, "xh.c")] + lib_sources() + ["-o", tmp, "-lm"]
     r = subprocess.run(cmd, capture_output=True, text=True)
     if r.returncode != 0:
         raise CompileError("build of example harness %s failed:\n%s" % (prog, r.stderr[-3000:]))
+    os.rename(tmp, exe)          # complete file or none: another thread may be looking for it
     return exe
 
 def run_xh(exe, lines, timeout=1800):
